@@ -2,6 +2,7 @@ package main
 
 import (
 	"fmt"
+	"go/constant"
 	"go/types"
 	"strings"
 
@@ -93,4 +94,160 @@ func entryOwnTypeRule(r *Report, p *Prog, rule string, file string) int {
 		}
 	}
 	return n
+}
+
+// handedOutCopiedRule (C18.j HANDED-OUT-COPIED): getBundledVersion is the one
+// place where entries of the mutex-protected bundledVersions table leave the
+// client (the four Client methods go through it, C18.c). The entry is a struct
+// of values that carry maps (Version.AttrSet, the Type of each requirement): a
+// copy of the struct or of the slice shares them with the stored entry and
+// with every other caller, outside the lock. Every return of a found entry is
+// dominated by (A) a store of AttrSet.Clone() into the copy's version and (B)
+// a store of a freshly built requirement slice into the copy; the elements'
+// types are cloned per element (C18.h covers that loop).
+func handedOutCopiedRule(r *Report, p *Prog, rule string) {
+	f := p.lookupFn("(*resolve.APIClient).getBundledVersion")
+	key := "(*resolve.APIClient).getBundledVersion: a found entry is handed out as a deep copy"
+	if f == nil {
+		r.bad(rule, key, "", "getBundledVersion not found: anchor lost")
+		return
+	}
+	fieldPath := func(v ssa.Value) []string {
+		var path []string
+		for {
+			fa, ok := v.(*ssa.FieldAddr)
+			if !ok {
+				break
+			}
+			st := fa.X.Type().Underlying().(*types.Pointer).Elem().Underlying().(*types.Struct)
+			path = append([]string{st.Field(fa.Field).Name()}, path...)
+			v = fa.X
+		}
+		return path
+	}
+	var attrStores, reqStores []*ssa.BasicBlock
+	for _, b := range f.Blocks {
+		for _, in := range b.Instrs {
+			st, ok := in.(*ssa.Store)
+			if !ok {
+				continue
+			}
+			path := strings.Join(fieldPath(st.Addr), ".")
+			switch {
+			case strings.HasSuffix(path, "AttrSet"):
+				if c, ok := st.Val.(*ssa.Call); ok && c.Common().StaticCallee() != nil && c.Common().StaticCallee().Name() == "Clone" {
+					attrStores = append(attrStores, b)
+				}
+			case path == "requirements":
+				fresh := false
+				var isFresh func(v ssa.Value, d int) bool
+				isFresh = func(v ssa.Value, d int) bool {
+					if d > 6 {
+						return false
+					}
+					switch x := v.(type) {
+					case *ssa.MakeSlice:
+						return true
+					case *ssa.Slice:
+						_, isAlloc := x.X.(*ssa.Alloc)
+						return isAlloc
+					case *ssa.Phi:
+						for _, e := range x.Edges {
+							if e != v && !isFresh(e, d+1) {
+								return false
+							}
+						}
+						return true
+					case *ssa.Call:
+						if bi, ok := x.Common().Value.(*ssa.Builtin); ok && bi.Name() == "append" {
+							if ph, ok := x.Common().Args[0].(*ssa.Phi); ok {
+								// append(phi(make, append(...)), ...): loop-carried fresh slice
+								for _, e := range ph.Edges {
+									if e != ssa.Value(x) && !isFresh(e, d+1) {
+										return false
+									}
+								}
+								return true
+							}
+							return isFresh(x.Common().Args[0], d+1)
+						}
+						if sc := x.Common().StaticCallee(); sc != nil && sc.Pkg != nil && sc.Pkg.Pkg.Path() == "slices" && sc.Name() == "Clone" {
+							return true
+						}
+					}
+					return false
+				}
+				fresh = isFresh(st.Val, 0)
+				if fresh {
+					reqStores = append(reqStores, b)
+				}
+			}
+		}
+	}
+	found := 0
+	var bad []string
+	for _, b := range f.Blocks {
+		// a success exit: `return x, true`, or (with a deferred unlock the
+		// results are spilled) a block that stores true into the bool result
+		success := false
+		if ret, ok := b.Instrs[len(b.Instrs)-1].(*ssa.Return); ok && len(ret.Results) == 2 {
+			if c, ok := ret.Results[1].(*ssa.Const); ok && c.Value != nil && constant.BoolVal(c.Value) {
+				success = true
+			}
+		}
+		for _, in := range b.Instrs {
+			if st, ok := in.(*ssa.Store); ok {
+				if c, ok := st.Val.(*ssa.Const); ok && c.Value != nil && c.Value.Kind() == constant.Bool && constant.BoolVal(c.Value) {
+					if _, isAlloc := st.Addr.(*ssa.Alloc); isAlloc {
+						success = true
+					}
+				}
+			}
+		}
+		// `return bv, ok` where ok is the lookup's own result
+		if ret, ok := b.Instrs[len(b.Instrs)-1].(*ssa.Return); ok && len(ret.Results) == 2 {
+			if ex, ok := ret.Results[1].(*ssa.Extract); ok {
+				if _, isLookup := ex.Tuple.(*ssa.Lookup); isLookup {
+					success = true
+				}
+			}
+		}
+		for _, in := range b.Instrs {
+			if st, ok := in.(*ssa.Store); ok {
+				if ex, ok := st.Val.(*ssa.Extract); ok && ex.Index == 1 {
+					if _, isLookup := ex.Tuple.(*ssa.Lookup); isLookup {
+						if al, isAlloc := st.Addr.(*ssa.Alloc); isAlloc && al.Comment == "" {
+							success = true // spilled `return bv, ok`
+						}
+					}
+				}
+			}
+		}
+		if !success {
+			continue
+		}
+		found++
+		dom := func(blocks []*ssa.BasicBlock) bool {
+			for _, s := range blocks {
+				if s == b || s.Dominates(b) {
+					return true
+				}
+			}
+			return false
+		}
+		if !dom(attrStores) {
+			bad = append(bad, "the version's attribute set is not replaced by a Clone()")
+		}
+		if !dom(reqStores) {
+			bad = append(bad, "the requirement slice is not rebuilt")
+		}
+	}
+	switch {
+	case found == 0:
+		r.bad(rule, key, p.pos(f.Pos()), "no return of a found entry: anchor lost")
+	case len(bad) > 0:
+		r.bad(rule, key, p.pos(f.Pos()), "an entry of the shared table is returned after the lock is released with its maps still shared ("+strings.Join(bad, "; ")+"): what one caller adds to the attributes of the version or of a requirement it was given shows up in the answers to every other caller, and concurrent callers race on the maps")
+	default:
+		r.ok(rule, key, p.pos(f.Pos()), "every return of a found entry follows AttrSet.Clone() and a rebuilt requirement slice")
+	}
 }
